@@ -1,5 +1,5 @@
 # replay of a bounded stand-in violation (C13): re-run native/c13_tdm.py
 import sys
-print("calls ('lock', 'space1', 'unroll1'): a refused unroll1 changed the locked flag")
+print('TDM N=3, 5 time bins, shift=2: running raises IndexError (the sample arrangement assumes a shift of one)')
 print('REPLAY-VIOLATION')
 sys.exit(1)
